@@ -767,6 +767,7 @@ func main() {
 	nshard := flag.Int("nshard", 1, "")
 	out := flag.String("out", "", "")
 	replay := flag.String("replay", "", "")
+	concOnly := flag.Bool("conconly", false, "run only the concurrent part (used by the build with delays at vnet's synchronisation points)")
 	flag.Parse()
 	_ = nshard
 	r := res.New("C13")
@@ -803,6 +804,9 @@ func main() {
 	if *tier == "thorough" {
 		nr, nh = 4000, 1500
 	}
+	if *concOnly {
+		nr = 0
+	}
 	rng := rand.New(rand.NewSource(*seed*419 + int64(*shard)*37 + 11))
 	seen := map[string]int{}
 	for i := 0; i < nr; i++ {
@@ -828,6 +832,25 @@ func main() {
 			}
 			r.Sample(s)
 		}
+	}
+	installYield()
+	r.Count("runs_in_mode_"+yieldMode, 1)
+	nconc := nh/4 + 1
+	if *concOnly {
+		nconc = nh
+	}
+	for i := 0; i < nconc; i++ {
+		r.Eval(1)
+		if k, d := runConcAddr(rng, r); k != "" {
+			seen[k]++
+			if seen[k] <= 2 {
+				r.Violate(k, d, map[string]interface{}{"phase": "concurrent", "iteration": i})
+			}
+		}
+	}
+	if *concOnly {
+		r.Write(*out)
+		return
 	}
 	for i := 0; i < nh; i++ {
 		c := genHostCase(rng, *tier == "thorough" && i%100 == 7 || *tier == "quick" && i == 7 && *shard == 0)
